@@ -220,5 +220,6 @@ fn main() {
         let r = catch_unwind(AssertUnwindSafe(|| run(&t))).unwrap_or_else(|_| vec![2]);
         let s: Vec<String> = r.iter().map(|x| x.to_string()).collect();
         writeln!(out, "{}", s.join(" ")).unwrap();
+        out.flush().unwrap();
     }
 }
